@@ -12,20 +12,13 @@
   The scenarios stay below the manager's error threshold and shorter than every test interval.
 -/
 import NV.Driver.Core
+import NV.Model.RealEp
 namespace NV.RealEp
 
 structure St where
   down : List String := []
   kill : Nat := 0
   active : List (Option String) := []
-
-def election (eps : List String) (down : List String) : Option String :=
-  match eps.find? (fun e => !down.contains e) with
-  | some e => some e
-  | none => eps.head?
-
-def pathOf (ep prof : String) : String :=
-  if ep = "-" then (if prof = "-" then "/" else "/" ++ prof) else "/" ++ ep
 
 /-- the server fails requests by PATH -/
 def isDown (down : List String) (ep prof : String) : Bool := down.contains ((pathOf ep prof).drop 1).toString
